@@ -140,7 +140,15 @@ pub fn build(rng: &mut Rng) -> Value {
         used.push(n.clone());
         let sums: Vec<Value> = (0..rng.range(if patch { 1 } else { 0 }, 3)).map(|_| json!([rng.range(1, 6), codes(&hash(rng))])).collect();
         let sz = if !patch && (sums.is_empty() || rng.chance(2, 3)) { json!([codes(&size(rng))]) } else { json!([]) };
-        entries.push(json!({"name": bytes_json(&n), "size": sz, "sums": sums}));
+        // where the file lives on disk is not what distinfo records: a location whose last
+        // component would classify differently from the recorded name
+        let path: Vec<u8> = match rng.below(4) {
+            0 => b"/tmp/work/Makefile.diff".to_vec(),
+            1 => b"/usr/pkgsrc/cat/pkg/patches/patch-CVE-2024-0001".to_vec(),
+            2 => { let mut v = b"../distfiles/".to_vec(); v.extend_from_slice(&n); v }
+            _ => n.clone(),
+        };
+        entries.push(json!({"name": bytes_json(&n), "path": bytes_json(&path), "size": sz, "sums": sums}));
     }
     let rcsid = if rng.chance(1, 3) { json!([]) } else {
         let mut r = b"$NetBSD: ".to_vec();
